@@ -159,7 +159,7 @@ func (hs *hstate) allowed(p cfsim.Plan, i int) bool {
 // buildPlans turns a list of targets into explicit plans: every target is placed at one of its
 // witnesses (rotating through them by target and history, a wallet's first NewAddress last: a stale
 // counter cannot show while the true counter is 0), first fit over the plans built so far.
-func (hs *hstate) buildPlans(phase int, targets []string) ([]cfsim.Plan, map[string]bool) {
+func (hs *hstate) buildPlans(phase int, targets []string, isolated bool) ([]cfsim.Plan, map[string]bool) {
 	src := hs.single
 	if phase == 2 {
 		src = hs.second
@@ -179,7 +179,11 @@ func (hs *hstate) buildPlans(phase int, targets []string) ([]cfsim.Plan, map[str
 		ws = append(ws[rot:], ws[:rot]...)
 		sort.SliceStable(ws, func(a, b int) bool { return !hs.first[ws[a].op] && hs.first[ws[b].op] })
 		placed := false
-		for pi := 0; pi <= len(plans) && !placed; pi++ {
+		start := 0
+		if isolated {
+			start = len(plans) // a plan of its own: no other fault of the run can get in its way
+		}
+		for pi := start; pi <= len(plans) && !placed; pi++ {
 			if pi == len(plans) {
 				plans = append(plans, cfsim.Plan{})
 			}
@@ -267,11 +271,11 @@ func serve(seed uint64) {
 						runLegacy(w, hs.s, hs.twin, n, p)
 					}
 				}
-			case "PLAN":
+			case "PLAN", "PLAN1":
 				n, _ := strconv.Atoi(f[1])
 				phase, _ := strconv.Atoi(f[2])
 				if hs := hist[n]; hs != nil {
-					plans, aimed := hs.buildPlans(phase, f[3:])
+					plans, aimed := hs.buildPlans(phase, f[3:], f[0] == "PLAN1")
 					for t, ok := range aimed {
 						if !ok {
 							fmt.Fprintf(w, "X %d harness-error target %s could not be placed\n", n, t)
@@ -400,6 +404,10 @@ func (m *master) assign(phase, mult int, only map[string]bool) (map[int][]string
 				free = append(free, h)
 			}
 		}
+		if len(free) == 0 && only != nil {
+			// missed in every history that has it: once more, in a plan of its own
+			free = append(free, hs...)
+		}
 		sort.Ints(free)
 		if len(free) > 0 {
 			l = append(l, tg{t, free})
@@ -520,7 +528,11 @@ func (m *master) runPhase(phase, mult, budget int) int {
 			}
 			sort.Ints(mine)
 			for _, h := range mine {
-				if !m.ask(wp, fmt.Sprintf("PLAN %d %d %s", h, phase, strings.Join(asg[h], " ")), h) {
+				verb := "PLAN"
+				if round > 0 {
+					verb = "PLAN1"
+				}
+				if !m.ask(wp, fmt.Sprintf("%s %d %d %s", verb, h, phase, strings.Join(asg[h], " ")), h) {
 					m.died(wp)
 					return
 				}
